@@ -1288,6 +1288,7 @@ func (m *Nitro) LoadFromDisk(dir string, concurr int, callb ItemCallback) (*Snap
 
 				for shard := range wchan {
 					r := readers[shard]
+					var items []*Item
 				loop:
 					for {
 						itm, err := r.ReadItem()
@@ -1302,7 +1303,23 @@ func (m *Nitro) LoadFromDisk(dir string, concurr int, callb ItemCallback) (*Snap
 							break loop
 						}
 
-						w := writers[id]
+						items = append(items, itm)
+					}
+
+					// Inserting runs the key comparator on the item bytes: the
+					// items of a damaged shard must not get that far.
+					if errors[shard] == nil && hasDeltaChecksums &&
+						deltaChecksums[shard] != r.Checksum() {
+						errors[shard] = ErrCorruptSnapshot
+					}
+
+					w := writers[id]
+					for _, itm := range items {
+						if errors[shard] != nil {
+							w.freeItem(itm)
+							continue
+						}
+
 						if n, success := w.store.Insert2(unsafe.Pointer(itm),
 							w.insCmp, w.existCmp, w.buf, w.rand.Float32, &w.slSts1); success {
 
